@@ -1,7 +1,8 @@
 (* C14, token grammar: every command node of an accepted file is written as a
    sequence of statements of Spec/JsSyntax.v. *)
 From Soy Require Import Model.Bytes Model.Num Model.Values Model.Outcome Model.Ast Model.JsGen Generated.Tables
-  Spec.JsSyntax Spec.JsShape Proofs.JsWfBase Proofs.JsWfFrame Proofs.JsWfMonad Proofs.JsWfExpr.
+  Spec.JsSyntax Spec.JsShape Proofs.JsWfSplitBase Proofs.JsWfSplitNum Proofs.JsWfSplit Proofs.JsWfTail Proofs.JsWfLeaf
+  Proofs.JsWfBase Proofs.JsWfFrame Proofs.JsWfMonad Proofs.JsWfExpr.
 From Coq Require Import ZifyBool ZifyNat ZifyN Lia.
 Open Scope N_scope.
 #[local] Arguments assoc_s {A} k l : simpl never.
@@ -197,7 +198,7 @@ Proof.
   unfold operand_text. intro H. destruct (text_toks t) as [ts|] eqn:Et; [|discriminate].
   destruct (js_run md ts (MWant false) []) as [[[m1 s1] d1]|] eqn:Er; [|discriminate].
   destruct m1; try discriminate. destruct isint; try discriminate. destruct s1; try discriminate. destruct d1; try discriminate.
-  eapply emits_toks1; [|apply expr_toks_run; exact Er|tail_solve]. cbn [lex_chunk]. unfold text_toks in Et.
+  eapply emits_toks1; [|apply expr_toks_run; exact Er|apply text_okb_tail; exact H]. cbn [lex_chunk]. unfold text_toks in Et.
   destruct (lex_text 0 LNormal t) as [[ts' m']|]; [|discriminate]. destruct m'; try discriminate. inversion Et; subst. reflexivity.
 Qed.
 
@@ -603,7 +604,7 @@ Proof.
       destruct (IH sa st' Hl ltac:(proj; congruence) ltac:(unfold called_ok in *; proj; assumption) H5) as (c5 & E5 & S5 & B5 & K5 & R5) end. proj.
     eexists. split; [eapply ext_trans; [|exact E5]; ext_build|]. split; [congruence|]. split; [congruence|]. split; [exact K5|].
     intros m d s Hm. norm_app2.
-    eapply emits_cons0; [ssingle|]. eapply emits_cons0; [eapply emits_toks1; [vm_compute; reflexivity| |tail_solve]; destruct Hm as [->|[e ->]]; reflexivity|].
+    eapply emits_cons0; [ssingle|]. eapply emits_cons0; [eapply emits_toks1; [vm_compute; reflexivity|destruct Hm as [->|[e ->]]; reflexivity|tail_solve]|].
     eapply emits_app0; [apply C|]. eapply emits_cons0; [ssingle|]. eapply emits_cons0; [ssingle|].
     pose proof (R5 (MStmt false) d s ltac:(right; eauto)) as Q. destruct vs; exact Q.
 Qed.
@@ -630,7 +631,7 @@ Proof.
       - jinv H2. proj. eexists. split; [ext_build|]. repeat (split; [reflexivity|]).
         assert (d = false). { cbn [filter is_default_case List.length] in Hcnt. destruct d; [cbn in Hcnt; lia|reflexivity]. } subst d.
         intros m s Hm. eapply emits_app0; [apply R1; exact Hm|]. norm_app2.
-        eapply emits_cons0; [ssingle|]. eapply emits_cons0; [eapply emits_toks1; [vm_compute; reflexivity| |tail_solve]; destruct Hm as [->|[e ->]]; reflexivity|]. ssingle.
+        eapply emits_cons0; [ssingle|]. eapply emits_cons0; [eapply emits_toks1; [vm_compute; reflexivity|destruct Hm as [->|[e ->]]; reflexivity|tail_solve]|]. ssingle.
       - jinv H2. exists []. split; [apply ext_refl; reflexivity|]. repeat (split; [reflexivity|]). intros m s Hm. rewrite app_nil_r. apply R1. exact Hm. }
     destruct P2 as (c2 & E2 & S2 & B2 & K2 & R2).
     ihs Hbody H4.
@@ -733,7 +734,7 @@ Proof.
         assert (A0 : accC ac (MHave false))
           by (intros cl s; destruct (Hacc1 cl s) as (c & Q); eapply emits_app0; [exact Q|];
               apply (emits_cons0 md _ _ _ _ (seq1 PColon None (MWant false)) (KObj :: KCall :: s)); [|eapply emits_cons0; [esingle|esingle]];
-              eapply emits_toks1; [cbn [lex_chunk]; rewrite (lex_name_ident _ Hkey); reflexivity| |tail_solve]; destruct (tok_of_ident_cases key) as [(k & ->)| ->]; reflexivity);
+              eapply emits_toks1; [cbn [lex_chunk]; rewrite (lex_name_ident _ Hkey); reflexivity|destruct (tok_of_ident_cases key) as [(k & ->)| ->]; reflexivity|tail_solve]);
         destruct (IH false ac (MHave false) sa st' res Hl A0 ltac:(cbv iota; eexists; reflexivity) ltac:(proj; assumption) ltac:(unfold called_ok in *; proj; assumption) ltac:(proj; exact Hb) H6)
           as (cs & m1 & E & C & A & Hm1 & S & B & K)
       end.
@@ -850,7 +851,7 @@ Proof.
           split; [exact Sr|]. split; [congruence|]. split; [exact Kr|].
           intros m d s Hm. destruct (Cb false (KBlock (BSwitch d) :: s)) as (eb & Qb). destruct (Rr (MStmt false) d s ltac:(right; eauto)) as (m' & Hm' & Qr).
           exists m'. split; [exact Hm'|]. norm_app2.
-          eapply emits_cons0; [ssingle|]. eapply emits_cons0; [eapply emits_toks1; [vm_compute; reflexivity| |tail_solve]; destruct Hm as [->|[e0 ->]]; reflexivity|].
+          eapply emits_cons0; [ssingle|]. eapply emits_cons0; [eapply emits_toks1; [vm_compute; reflexivity|destruct Hm as [->|[e0 ->]]; reflexivity|tail_solve]|].
           eapply emits_cons0; [apply emits_num_Z|]. eapply emits_cons0; [ssingle|]. eapply emits_cons0; [ssingle|].
           eapply emits_app0; [exact Qb|]. eapply emits_cons0; [ssingle|]. eapply emits_cons0; [eapply emits_toks1; [vm_compute; reflexivity|reflexivity|tail_solve]|].
           eapply emits_cons0; [ssingle|]. exact Qr. }
@@ -864,7 +865,7 @@ Proof.
       + intros e s. destruct (R6 MSwStart false s ltac:(left; reflexivity)) as (m6 & Hm6 & Q6). destruct (C9 false (KBlock (BSwitch true) :: s)) as (e9 & Q9). exists false.
         norm_app2. eapply emits_cons0; [ssingle|]. eapply emits_cons0; [ssingle|]. eapply emits_app0; [apply C|]. eapply emits_cons0; [ssingle|]. eapply emits_cons0; [ssingle|].
         eapply emits_app0; [exact Q6|]. eapply emits_cons0; [ssingle|].
-        eapply emits_cons0; [eapply emits_toks1; [vm_compute; reflexivity| |tail_solve]; destruct Hm6 as [->|[e6 ->]]; reflexivity|]. eapply emits_cons0; [ssingle|].
+        eapply emits_cons0; [eapply emits_toks1; [vm_compute; reflexivity|destruct Hm6 as [->|[e6 ->]]; reflexivity|tail_solve]|]. eapply emits_cons0; [ssingle|].
         eapply emits_app0; [exact Q9|]. eapply emits_cons0; [ssingle|]. eapply emits_cons0; [ssingle|]. ssingle.
     - (* a plural case outside a plural: nothing is written *) jinv H1. exists []. apply spost_nil; assumption.
     - jinv H1. exists []. apply spost_nil; assumption.
@@ -969,7 +970,7 @@ Proof.
         split; [exact Sr|]. split; [congruence|]. split; [exact Kr|].
         intros m d s Hm. destruct (Cb false (KBlock (BSwitch d) :: s)) as (eb & Qb). destruct (Rr (MStmt false) d s ltac:(right; eauto)) as (m' & Hm' & Qr).
         exists m'. split; [exact Hm'|]. norm_app2.
-        eapply emits_cons0; [ssingle|]. eapply emits_cons0; [eapply emits_toks1; [vm_compute; reflexivity| |tail_solve]; destruct Hm as [->|[e0 ->]]; reflexivity|].
+        eapply emits_cons0; [ssingle|]. eapply emits_cons0; [eapply emits_toks1; [vm_compute; reflexivity|destruct Hm as [->|[e0 ->]]; reflexivity|tail_solve]|].
         eapply emits_cons0; [apply emits_num_N|]. eapply emits_cons0; [ssingle|]. eapply emits_cons0; [ssingle|].
         eapply emits_app0; [exact Qb|]. eapply emits_cons0; [ssingle|]. eapply emits_cons0; [eapply emits_toks1; [vm_compute; reflexivity|reflexivity|tail_solve]|].
         eapply emits_cons0; [ssingle|]. exact Qr. }
